@@ -166,6 +166,7 @@ struct slice
 channel_read_map(struct channel* self, struct channel_reader* reader)
 {
     size_t nbytes = 0;
+    uint8_t bookmark_moved = 0;
     lock_acquire(&self->lock);
 
     reader_initialize(self, reader);
@@ -204,6 +205,7 @@ channel_read_map(struct channel* self, struct channel_reader* reader)
         // committed there. (An empty slice must mean "drained".)
         *pos = 0;
         *cycle = self->cycle;
+        bookmark_moved = 1;
         nbytes = self->head;
         if (nbytes) {
             out = self->data;
@@ -219,6 +221,10 @@ channel_read_map(struct channel* self, struct channel_reader* reader)
 
 Finalize:
     lock_release(&self->lock);
+    // Moving a bookmark releases space, just like channel_read_unmap() does:
+    // a writer that is waiting for it must be woken up.
+    if (bookmark_moved)
+        condition_variable_notify_all(&self->notify_space_available);
     return (struct slice){ .beg = out, .end = out + nbytes };
 Overflow:
     reader->status = Channel_Error;
@@ -227,6 +233,7 @@ AdvanceToWriterHead:
     nbytes = 0;
     *pos = self->head;
     *cycle = self->cycle;
+    bookmark_moved = 1;
     goto Finalize;
 }
 
